@@ -24,6 +24,7 @@ import (
 	"fmt"
 	"hash/fnv"
 	"io"
+	"log"
 	"net/http"
 	"net/http/httptest"
 	"os"
@@ -132,129 +133,348 @@ const (
 	invalid
 	missingFile
 	garbageFile
-	http500
 	plugErrRealFile // the plug-in fails although the source names a readable profile file: no silent fallback
+	nLocalKinds     // the kinds after this one need the scripted transport
+)
+const (
+	http500        failKind = nLocalKinds + iota
+	httpErrProfile          // the scripted transport answers 404 with the source's own well-formed profile as the body
 	nKinds
 )
 
+// the scripted transport of the runs without "errbody" / "remote" sources
 type transport struct{}
 
+var stubRE = regexp.MustCompile(`^/pbody/(src|base)/(\d+)$`)
+
 func (transport) RoundTrip(req *http.Request) (*http.Response, error) {
+	if m := stubRE.FindStringSubmatch(req.URL.Path); m != nil {
+		i, _ := strconv.Atoi(m[2])
+		return &http.Response{StatusCode: 404, Status: "404 scripted failure with a profile as the body", Body: io.NopCloser(bytes.NewReader(profileBytes(gi{m[1], i}))), Header: http.Header{}, Request: req}, nil
+	}
 	return &http.Response{StatusCode: 500, Status: "500 scripted failure", Body: io.NopCloser(strings.NewReader("nope")), Header: http.Header{}, Request: req}, nil
 }
 
-var nameRE = regexp.MustCompile(`(src|base)(\d+)`)
+var (
+	bodyMu sync.Mutex
+	bodies = map[gi][]byte{}
+)
+
+func profileBytes(x gi) []byte {
+	bodyMu.Lock()
+	defer bodyMu.Unlock()
+	if b, ok := bodies[x]; ok {
+		return b
+	}
+	var b bytes.Buffer
+	srcProfile(x.G, x.I).Write(&b)
+	bodies[x] = b.Bytes()
+	return bodies[x]
+}
+
+// ---- the servers and TLS set-ups behind the classes "errbody" and "remote"
+
+// tlsSetup is one configuration of internal/transport: the values of -tls_cert, -tls_key, -tls_ca.
+type tlsSetup struct {
+	name          string
+	cert, key, ca string
+	verifies      bool // the CA file vouches for the TLS server: plain https:// sources can be fetched
+}
+
+type remoteEnv struct {
+	plain, tls *httptest.Server
+	good, bad  []tlsSetup
+}
+
+var (
+	remote    *remoteEnv
+	remoteErr error
+	pathRE    = regexp.MustCompile(`^/c16/(errbody|remote)/(\d+)/(src|base)/(\d+)$`)
+)
+
+func serve(w http.ResponseWriter, r *http.Request) {
+	m := pathRE.FindStringSubmatch(r.URL.Path)
+	if m == nil {
+		http.Error(w, "unknown path", http.StatusTeapot)
+		return
+	}
+	status, _ := strconv.Atoi(m[2])
+	i, _ := strconv.Atoi(m[4])
+	// the real transport builds a new http.Transport for every request: do not leave an idle connection behind each
+	w.Header().Set("Connection", "close")
+	if status != http.StatusOK {
+		w.WriteHeader(status)
+	}
+	w.Write(profileBytes(gi{m[3], i}))
+}
+
+// newRemoteEnv starts the two servers, writes the TLS files and checks with a plain net/http client (no pprof code)
+// that the servers answer as scripted: anything wrong here is a problem of the machinery.
+func newRemoteEnv() (*remoteEnv, error) {
+	e := &remoteEnv{plain: httptest.NewUnstartedServer(http.HandlerFunc(serve)), tls: httptest.NewUnstartedServer(http.HandlerFunc(serve))}
+	// a client that refuses the server's certificate is part of the script, not news for stderr
+	e.plain.Config.ErrorLog = log.New(io.Discard, "", 0)
+	e.tls.Config.ErrorLog = log.New(io.Discard, "", 0)
+	e.plain.Start()
+	e.tls.StartTLS()
+	write := func(name string, b []byte) (string, error) {
+		p := filepath.Join(dir, name)
+		return p, os.WriteFile(p, b, 0o600)
+	}
+	crt := e.tls.TLS.Certificates[0]
+	certPEM := pem.EncodeToMemory(&pem.Block{Type: "CERTIFICATE", Bytes: crt.Certificate[0]})
+	keyDER, err := x509.MarshalPKCS8PrivateKey(crt.PrivateKey)
+	if err != nil {
+		return nil, fmt.Errorf("the test server's key: %v", err)
+	}
+	keyPEM := pem.EncodeToMemory(&pem.Block{Type: "PRIVATE KEY", Bytes: keyDER})
+	if _, err := tls.X509KeyPair(certPEM, keyPEM); err != nil {
+		return nil, fmt.Errorf("the test server's certificate and key do not load as a pair: %v", err)
+	}
+	certFile, err1 := write("tls-cert.pem", certPEM)
+	keyFile, err2 := write("tls-key.pem", keyPEM)
+	junkFile, err3 := write("tls-junk.pem", []byte("-----BEGIN CERTIFICATE-----\nnot base64 at all\n-----END CERTIFICATE-----\n"))
+	for _, err := range []error{err1, err2, err3} {
+		if err != nil {
+			return nil, err
+		}
+	}
+	e.good = []tlsSetup{
+		{name: "no-tls-flags"},
+		{name: "ca", ca: certFile, verifies: true},
+		{name: "ca+cert+key", ca: certFile, cert: certFile, key: keyFile, verifies: true},
+	}
+	e.bad = []tlsSetup{
+		{name: "ca-missing", ca: filepath.Join(dir, "no-such-ca.pem")},
+		{name: "cert-without-key", cert: certFile},
+		{name: "key-without-cert", key: keyFile},
+		{name: "cert-unloadable", cert: junkFile, key: keyFile},
+		{name: "ca-missing+cert+key", ca: filepath.Join(dir, "no-such-ca.pem"), cert: certFile, key: keyFile},
+	}
+	pool := x509.NewCertPool()
+	pool.AppendCertsFromPEM(certPEM)
+	cl := &http.Client{Timeout: 20 * time.Second, Transport: &http.Transport{TLSClientConfig: &tls.Config{RootCAs: pool}, DisableKeepAlives: true}}
+	for _, probe := range []struct {
+		url    string
+		status int
+	}{{e.plain.URL + "/c16/remote/200/src/1", 200}, {e.tls.URL + "/c16/remote/200/base/1", 200}, {e.plain.URL + "/c16/errbody/503/src/2", 503}, {e.tls.URL + "/c16/errbody/404/src/2", 404}} {
+		resp, err := cl.Get(probe.url)
+		if err != nil {
+			return nil, fmt.Errorf("local server probe %s: %v", probe.url, err)
+		}
+		b, _ := io.ReadAll(resp.Body)
+		resp.Body.Close()
+		if _, perr := profile.ParseData(b); resp.StatusCode != probe.status || perr != nil {
+			return nil, fmt.Errorf("local server probe %s: status %d (want %d), body parses: %v", probe.url, resp.StatusCode, probe.status, perr)
+		}
+	}
+	return e, nil
+}
+
+// strFlags is the FlagSet handed to transport.New when the harness plugs the real transport in itself (behind the
+// gate): the three -tls_* values are set directly instead of being parsed from a command line.
+type strFlags map[string]*string
+
+func (f strFlags) Bool(n string, d bool, u string) *bool          { return &d }
+func (f strFlags) Int(n string, d int, u string) *int             { return &d }
+func (f strFlags) Float64(n string, d float64, u string) *float64 { return &d }
+func (f strFlags) String(n string, d string, u string) *string {
+	v := d
+	f[n] = &v
+	return &v
+}
+func (f strFlags) StringList(n string, d string, u string) *[]*string { return &[]*string{} }
+func (f strFlags) ExtraUsage() string                                 { return "" }
+func (f strFlags) AddExtraUsage(eu string)                            {}
+func (f strFlags) Parse(usage func()) []string                        { return nil }
+
+var _ plugin.FlagSet = strFlags{}
+
+// gatedRT puts the controller's gate in front of the real transport: a request enters RoundTrip of the real transport
+// only when the controller releases its source, and the next source is released after that call has returned.
+type gatedRT struct {
+	inner http.RoundTripper
+	enter func(x gi)
+	leave func(x gi)
+}
+
+func (t *gatedRT) RoundTrip(req *http.Request) (*http.Response, error) {
+	if m := pathRE.FindStringSubmatch(req.URL.Path); m != nil {
+		i, _ := strconv.Atoi(m[4])
+		x := gi{m[3], i}
+		t.enter(x)
+		defer t.leave(x)
+	}
+	return t.inner.RoundTrip(req)
+}
+
+var fnRE = regexp.MustCompile(`^(src|base)_fn(\d+)$`)
+
+// what one source of a run is
+type srcPlan struct {
+	x        gi
+	class    string
+	kind     failKind // class "fail"
+	byDriver bool     // the Fetcher plug-in declines (nil, nil): the driver's own file / URL fetch decides
+	atRT     bool     // gated inside the transport instead of inside the Fetcher plug-in
+}
 
 // runOne forces one behaviour. order lists (group, index 1-based) in completion order; sources not listed complete freely.
 func runOne(c *bcase, schedule string) fetchEvent {
 	r := vlib.NewRand(run.Seed*131 + int64(evN))
-	name := map[string]gi{}
-	kind := map[string]failKind{}
+	// the choices of a run with "errbody" / "remote" sources depend on the case and the seed only (TLC emits the cases
+	// in no fixed order)
+	hb, _ := json.Marshal(c)
+	hh := fnv.New64a()
+	hh.Write(hb)
+	pick := vlib.NewRand(run.Seed*977 + int64(hh.Sum64()>>1))
+	useRT := c.usesTransport()
+	var setup tlsSetup
+	gated := false
+	if useRT {
+		if c.TLSOK {
+			setup = remote.good[pick.Intn(len(remote.good))]
+		} else {
+			setup = remote.bad[pick.Intn(len(remote.bad))]
+		}
+		// either the harness plugs the real transport in behind its gate (the completion order is then the order of the
+		// calls of the real RoundTrip), or the driver creates its own from the -tls_* flags of the command line (the
+		// prescribed order is then the order in which the Fetcher plug-in hands the sources over to the driver's fetch)
+		gated = pick.Bool()
+	}
+	plans := map[string]*srcPlan{}
 	var srcs, flags []string
-	mk := func(g string, i int, ok bool) string {
+	mk := func(g string, i int, class string) string {
 		n := fmt.Sprintf("%s%d", g, i)
-		if !ok {
-			k := failKind(r.Intn(int(nKinds)))
-			switch k {
+		pl := &srcPlan{x: gi{g, i}, class: class}
+		switch class {
+		case "ok":
+			if useRT && pick.Bool() {
+				// a readable profile file next to the URLs, read by the driver itself
+				n = filepath.Join(dir, "local-"+n+".pb.gz")
+				if _, err := os.Stat(n); err != nil {
+					os.WriteFile(n, profileBytes(pl.x), 0o644)
+				}
+				pl.byDriver = true
+			}
+		case "fail":
+			nk := int(nKinds)
+			if useRT {
+				nk = int(nLocalKinds) // the scripted transport is not there
+			}
+			pl.kind = failKind(r.Intn(nk))
+			switch pl.kind {
 			case missingFile:
 				n = filepath.Join(dir, "missing-"+n)
+				pl.byDriver = true
 			case garbageFile:
 				n = filepath.Join(dir, "garbage-"+n)
 				os.WriteFile(n, []byte("\x00\x01 not a profile "+n), 0o644)
+				pl.byDriver = true
 			case http500:
 				n = "http://unreachable.invalid/" + n
+				pl.byDriver = true
+			case httpErrProfile:
+				n = fmt.Sprintf("http://unreachable.invalid/pbody/%s/%d", g, i)
+				pl.byDriver = true
 			case plugErrRealFile:
 				n = filepath.Join(dir, "real-"+n+".pb.gz")
-				var b bytes.Buffer
-				srcProfile(g, i).Write(&b)
-				os.WriteFile(n, b.Bytes(), 0o644)
+				os.WriteFile(n, profileBytes(pl.x), 0o644)
 			}
-			kind[n] = k
+		case "errbody", "remote":
+			schemes := []string{"http", "https+insecure"}
+			if setup.verifies || !c.TLSOK {
+				schemes = append(schemes, "https")
+			}
+			status := 200
+			if class == "errbody" {
+				status = []int{500, 404, 503, 403, 502}[pick.Intn(5)]
+			}
+			host := strings.TrimPrefix(remote.tls.URL, "https://")
+			scheme := schemes[pick.Intn(len(schemes))]
+			if scheme == "http" {
+				host = strings.TrimPrefix(remote.plain.URL, "http://")
+			}
+			n = fmt.Sprintf("%s://%s/c16/%s/%d/%s/%d", scheme, host, class, status, g, i)
+			pl.byDriver = true
+			pl.atRT = gated
+		default:
+			run.Infra("unknown source class " + class)
 		}
-		name[n] = gi{g, i}
+		plans[n] = pl
 		return n
 	}
 	for i := 1; i <= c.NSrc; i++ {
-		srcs = append(srcs, mk("src", i, c.SrcOK[i-1]))
+		srcs = append(srcs, mk("src", i, c.SrcOut[i-1]))
 	}
 	for i := 1; i <= c.NBase; i++ {
-		flags = append(flags, "-base="+mk("base", i, c.BaseOK[i-1]))
-	}
-	okOf := func(x gi) bool {
-		if x.G == "src" {
-			return c.SrcOK[x.I-1]
-		}
-		return c.BaseOK[x.I-1]
+		flags = append(flags, "-base="+mk("base", i, c.BaseOut[i-1]))
 	}
 	// gates
 	var mu sync.Mutex
 	started := map[gi]chan struct{}{}
 	release := map[gi]chan struct{}{}
 	finished := map[gi]chan struct{}{}
-	for _, x := range name {
-		started[x], release[x], finished[x] = make(chan struct{}), make(chan struct{}), make(chan struct{})
+	for _, pl := range plans {
+		started[pl.x], release[pl.x], finished[pl.x] = make(chan struct{}), make(chan struct{}), make(chan struct{})
 	}
+	closeOnce := func(ch chan struct{}) {
+		mu.Lock()
+		defer mu.Unlock()
+		select {
+		case <-ch:
+		default:
+			close(ch)
+		}
+	}
+	enter := func(x gi) {
+		closeOnce(started[x])
+		<-release[x]
+	}
+	leave := func(x gi) { closeOnce(finished[x]) }
 	fetch := func(src string) (*profile.Profile, error) {
-		x, known := name[src]
+		pl, known := plans[src]
 		if !known {
 			return nil, fmt.Errorf("unknown source %q", src)
 		}
-		close(started[x])
-		<-release[x]
-		defer func() {
-			mu.Lock()
-			defer mu.Unlock()
-			select {
-			case <-finished[x]:
-			default:
-				close(finished[x])
-			}
-		}()
-		if okOf(x) {
+		if pl.atRT {
+			return nil, nil // the gate is in front of the real transport
+		}
+		x := pl.x
+		enter(x)
+		defer leave(x)
+		if pl.byDriver {
+			return nil, nil // let the driver's own file / URL fetch succeed or fail
+		}
+		if pl.class == "ok" {
 			return srcProfile(x.G, x.I), nil
 		}
-		switch kind[src] {
-		case plugErr, plugErrRealFile:
-			return nil, fmt.Errorf("scripted fetch failure")
+		switch pl.kind {
 		case invalid:
 			p := srcProfile(x.G, x.I)
 			p.Sample[0].Value = []int64{1, 2, 3} // wrong number of values: fails CheckValid
 			return p, nil
 		}
-		return nil, nil // let the driver's own file / URL fetch fail
+		return nil, fmt.Errorf("scripted fetch failure")
 	}
 	// controller: release in the prescribed order, each one only after it has started and the previous one has returned
-	listed := map[gi]bool{}
 	// a source the driver never hands to the Fetcher, or a fetch that never returns, must not hang the run:
 	// the controller then opens every gate and the observation is reported
 	giveUp := func(x gi, what string) {
 		run.Violate("fetch", "fetch-"+what, fmt.Sprintf("source %v %s within 30 s (schedule %s)", x, what, schedule), c, nil)
-		mu.Lock()
-		defer mu.Unlock()
 		for _, ch := range release {
-			select {
-			case <-ch:
-			default:
-				close(ch)
-			}
+			closeOnce(ch)
 		}
 	}
 	go func() {
 		for _, x := range c.Order {
-			listed[x] = true
 			select {
 			case <-started[x]:
 			case <-time.After(30 * time.Second):
 				giveUp(x, "never-requested")
 				return
 			}
-			mu.Lock()
-			select {
-			case <-release[x]:
-			default:
-				close(release[x])
-			}
-			mu.Unlock()
+			closeOnce(release[x])
 			select {
 			case <-finished[x]:
 			case <-time.After(30 * time.Second):
@@ -273,30 +493,55 @@ func runOne(c *bcase, schedule string) fetchEvent {
 			}
 		}
 		if !inOrder {
-			mu.Lock()
-			select {
-			case <-release[x]:
-			default:
-				close(release[x])
-			}
-			mu.Unlock()
+			closeOnce(release[x])
 		}
 	}
-	args := append([]string{"-proto", "-output=out", "-symbolize=none"}, flags...)
+	args := []string{"-proto", "-output=out", "-symbolize=none"}
+	opts := vdrv.Opts{Fetch: fetch, Transport: transport{}}
+	setupName := ""
+	if useRT {
+		if gated {
+			fs := strFlags{}
+			inner := realtransport.New(fs)
+			for n, v := range map[string]string{"tls_cert": setup.cert, "tls_key": setup.key, "tls_ca": setup.ca} {
+				if fs[n] == nil {
+					run.Infra("transport.New did not register -" + n)
+					continue
+				}
+				*fs[n] = v
+			}
+			opts.Transport = &gatedRT{inner: inner, enter: enter, leave: leave}
+			setupName = setup.name + "/gated-transport"
+		} else {
+			opts.Transport = nil // the driver's own: transport.New(the command line's flag set)
+			for _, fv := range [][2]string{{"tls_cert", setup.cert}, {"tls_key", setup.key}, {"tls_ca", setup.ca}} {
+				if fv[1] != "" {
+					args = append(args, "-"+fv[0]+"="+fv[1])
+				}
+			}
+			setupName = setup.name + "/command-line"
+		}
+	}
+	args = append(args, flags...)
 	args = append(args, srcs...)
-	var errDelay time.Duration
 	if evN%3 == 0 {
-		errDelay = 3 * time.Millisecond // a slow terminal: error reporting overlaps with fetches that are still completing
+		opts.ErrDelay = 3 * time.Millisecond // a slow terminal: error reporting overlaps with fetches that are still completing
 	}
-	res := vdrv.Run(vdrv.Opts{Args: args, Fetch: fetch, Transport: transport{}, ErrDelay: errDelay})
-	ev := fetchEvent{Op: "fetch", N: evN, SrcOK: c.SrcOK, BaseOK: c.BaseOK, Merged: []gi{}, Errs: []gi{}, Schedule: schedule}
-	if ev.SrcOK == nil {
-		ev.SrcOK = []bool{}
+	opts.Args = args
+	res := vdrv.Run(opts)
+	ev := fetchEvent{Op: "fetch", N: evN, SrcOut: c.SrcOut, BaseOut: c.BaseOut, TLSOK: c.TLSOK, Merged: []gi{}, Errs: []gi{}, Schedule: schedule, Setup: setupName}
+	if ev.SrcOut == nil {
+		ev.SrcOut = []string{}
 	}
-	if ev.BaseOK == nil {
-		ev.BaseOK = []bool{}
+	if ev.BaseOut == nil {
+		ev.BaseOut = []string{}
 	}
 	evN++
+	if res.Hung {
+		run.Infra("driver.PProf did not return: " + fmt.Sprint(res.Err))
+		ev.Failed = true
+		return ev
+	}
 	if res.Panic != nil {
 		run.Violate("fetch", "panic", fmt.Sprint(res.Panic), c, nil)
 		ev.Failed = true
@@ -305,9 +550,9 @@ func runOne(c *bcase, schedule string) fetchEvent {
 	ev.Failed = res.Err != nil
 	for _, line := range res.UIErr {
 		// "<source>: <error>" lines, one per failed source
-		for n, x := range name {
+		for n, pl := range plans {
 			if strings.HasPrefix(line, n+": ") {
-				ev.Errs = append(ev.Errs, x)
+				ev.Errs = append(ev.Errs, pl.x)
 			}
 		}
 	}
@@ -318,7 +563,7 @@ func runOne(c *bcase, schedule string) fetchEvent {
 			return ev
 		}
 		for _, cm := range p.Comments {
-			if m := regexp.MustCompile(`^(src|base)#(\d+)$`).FindStringSubmatch(cm); m != nil {
+			if m := commentRE.FindStringSubmatch(cm); m != nil {
 				var i int
 				fmt.Sscan(m[2], &i)
 				ev.Merged = append(ev.Merged, gi{m[1], i})
@@ -327,28 +572,48 @@ func runOne(c *bcase, schedule string) fetchEvent {
 		ev.NSamples = len(p.Sample)
 		// every source's value must be there with the right sign
 		want := map[string]int64{}
-		for i, ok := range c.SrcOK {
-			if ok {
+		for i := range c.SrcOut {
+			if c.okOf(gi{"src", i + 1}) {
 				want[fmt.Sprintf("src_fn%d", i+1)] = int64(i + 1)
 			}
 		}
-		for i, ok := range c.BaseOK {
-			if ok {
+		for i := range c.BaseOut {
+			if c.okOf(gi{"base", i + 1}) {
 				want[fmt.Sprintf("base_fn%d", i+1)] = -int64(i + 1)
 			}
 		}
 		for _, s := range p.Sample {
 			n := s.Location[0].Line[0].Function.Name
 			if want[n] != s.Value[0] {
-				run.Violate("fetch", "wrong-value", fmt.Sprintf("%s has value %d, want %d", n, s.Value[0], want[n]), c, nil)
+				detail := fmt.Sprintf("%s has value %d, want %d", n, s.Value[0], want[n])
+				if m := fnRE.FindStringSubmatch(n); m != nil {
+					i, _ := strconv.Atoi(m[2])
+					if x := (gi{m[1], i}); i >= 1 && ((m[1] == "src" && i <= len(c.SrcOut)) || (m[1] == "base" && i <= len(c.BaseOut))) && !c.okOf(x) {
+						detail += fmt.Sprintf(": a source of class %q (transport initialisation succeeds: %v, set-up %q) is part of the merged profile", c.classOf(x), c.TLSOK, setupName)
+					}
+				}
+				run.Violate("fetch", "wrong-value", detail, c, nil)
 			}
 			delete(want, n)
 		}
 		if len(want) > 0 {
-			run.Violate("fetch", "lost-source", fmt.Sprintf("sources missing from the merge: %v", want), c, nil)
+			run.Violate("fetch", "lost-source", fmt.Sprintf("sources missing from the merge: %v (set-up %q)", want, setupName), c, nil)
 		}
 	}
 	return ev
+}
+
+var commentRE = regexp.MustCompile(`^(src|base)#(\d+)$`)
+
+func classes(ok []bool) []string {
+	out := make([]string, len(ok))
+	for i, b := range ok {
+		out[i] = "fail"
+		if b {
+			out[i] = "ok"
+		}
+	}
+	return out
 }
 
 func main() {
@@ -359,17 +624,59 @@ func main() {
 		run.Infra(err.Error())
 	}
 	defer os.RemoveAll(dir)
+	// profiles fetched from a URL are saved by the driver: keep them inside the scratch directory; the servers are local
+	os.Setenv("PPROF_TMPDIR", filepath.Join(dir, "saved"))
+	for _, v := range []string{"HTTP_PROXY", "HTTPS_PROXY", "http_proxy", "https_proxy"} {
+		os.Unsetenv(v)
+	}
+	defer func() {
+		if remote != nil {
+			remote.plain.Close()
+			remote.tls.Close()
+		}
+	}()
+	seen := map[string]bool{}
 	run.EachCase(func(i int, raw json.RawMessage) {
 		var c bcase
 		if err := json.Unmarshal(raw, &c); err != nil {
 			run.Infra("case decode: " + err.Error())
 			return
 		}
-		ev := runOne(&c, "prescribed")
+		if len(c.SrcOut) != c.NSrc || len(c.BaseOut) != c.NBase {
+			run.Infra("case with " + fmt.Sprint(len(c.SrcOut), len(c.BaseOut)) + " classes for " + fmt.Sprint(c.NSrc, c.NBase) + " sources: " + string(raw))
+			return
+		}
+		schedule := "prescribed"
+		if c.usesTransport() {
+			// TLC evaluates the emitting action more than once per behaviour (liveness checking): what a run with
+			// URLs does depends on the case and the seed only, so one run per behaviour
+			if seen[string(raw)] {
+				return
+			}
+			seen[string(raw)] = true
+			if remote == nil && remoteErr == nil {
+				remote, remoteErr = newRemoteEnv()
+				if remoteErr != nil {
+					run.Infra("local servers for the URL classes: " + remoteErr.Error())
+				}
+			}
+			if remote == nil {
+				return
+			}
+			schedule = "urls"
+			if !c.TLSOK {
+				schedule = "urls-tls-setup-broken"
+			}
+		} else if !c.TLSOK {
+			run.Infra("case without URLs and a failing transport initialisation: " + string(raw))
+			return
+		}
+		ev := runOne(&c, schedule)
 		b, _ := json.Marshal(c)
 		run.Count(string(b))
+		run.Counter("runs:"+schedule, 1)
 		run.Event(ev)
-		run.Aux(map[string]interface{}{"n": ev.N, "case": c})
+		run.Aux(map[string]interface{}{"n": ev.N, "case": c, "setup": ev.Setup})
 		if i%100 == 0 {
 			run.Sample(c)
 		}
@@ -380,23 +687,24 @@ func main() {
 	for it := 0; it < run.N; it++ {
 		n := sizes[it%len(sizes)]
 		nb := []int{0, 1, 130}[it%3]
-		c := bcase{NSrc: n, NBase: nb, SrcOK: make([]bool, n), BaseOK: make([]bool, nb)}
+		srcOK, baseOK := make([]bool, n), make([]bool, nb)
 		mode := it % 4
-		for i := range c.SrcOK {
+		for i := range srcOK {
 			switch mode {
 			case 0:
-				c.SrcOK[i] = r.Intn(5) != 0
+				srcOK[i] = r.Intn(5) != 0
 			case 1:
-				c.SrcOK[i] = i/128 != 1 // the whole second chunk fails
+				srcOK[i] = i/128 != 1 // the whole second chunk fails
 			case 2:
-				c.SrcOK[i] = i == n-1 // only the last source succeeds
+				srcOK[i] = i == n-1 // only the last source succeeds
 			case 3:
-				c.SrcOK[i] = i < 128 && r.Bool() // the trailing chunk(s) fail entirely
+				srcOK[i] = i < 128 && r.Bool() // the trailing chunk(s) fail entirely
 			}
 		}
-		for i := range c.BaseOK {
-			c.BaseOK[i] = r.Intn(4) != 0 || i == nb-1
+		for i := range baseOK {
+			baseOK[i] = r.Intn(4) != 0 || i == nb-1
 		}
+		c := bcase{NSrc: n, NBase: nb, SrcOut: classes(srcOK), BaseOut: classes(baseOK), TLSOK: true}
 		// completion order inside each chunk of each group
 		sched := []string{"forward", "reverse", "random"}[it%3]
 		for start := 0; start < n; start += 128 {
@@ -426,7 +734,7 @@ func main() {
 		ev := runOne(&c, sched)
 		run.Count(fmt.Sprintf("big|%d|%d|%d|%s", n, nb, mode, sched))
 		run.Event(ev)
-		run.Aux(map[string]interface{}{"n": ev.N, "case": map[string]interface{}{"nsrc": n, "nbase": nb, "mode": mode, "schedule": sched, "srcok": c.SrcOK, "baseok": c.BaseOK}})
+		run.Aux(map[string]interface{}{"n": ev.N, "case": map[string]interface{}{"nsrc": n, "nbase": nb, "mode": mode, "schedule": sched, "srcout": c.SrcOut, "baseout": c.BaseOut}})
 	}
-	run.Finish("behaviours = every (failure subset, completion order) of Fetch.tla for 3 sources + 1 base in one chunk, forced on the real driver by a gating Fetcher with a seeded failure kind per failing source (plug-in error, invalid profile, missing file, garbage file, HTTP 500); plus runs with 127/128/129/257/300 sources and 0/1/130 bases across the real chunk size with forward, reverse and random completion orders and failure patterns (random, a whole chunk failing, only the last source succeeding, trailing chunks failing); non-trivial = distinct behaviour")
+	run.Finish("behaviours = every (source classes, completion order) of Fetch.tla in one chunk, forced on the real driver by a gating Fetcher: 3 sources + 1 base of the classes ok / fail with a seeded failure kind per failing source (plug-in error, invalid profile, missing file, garbage file, plug-in error for a readable file, HTTP 500, HTTP 404 with a well-formed profile as the body); 2 sources + 1 base of the classes ok / errbody (a URL answered with 500, 404, 503, 403 or 502 and a well-formed profile as the body) / remote (a URL answered with 200 and a profile), served by a local plain and a local TLS server and fetched through the real internal/transport under a TLS set-up whose one-time initialisation succeeds (no flags, -tls_ca, -tls_ca + -tls_cert + -tls_key) or fails (missing -tls_ca file, -tls_cert without -tls_key and the reverse, unloadable certificate), the transport either plugged in behind the gate or created by the driver from the command line's -tls_* flags; plus runs with 127/128/129/257/300 sources and 0/1/130 bases across the real chunk size with forward, reverse and random completion orders and failure patterns (random, a whole chunk failing, only the last source succeeding, trailing chunks failing); non-trivial = distinct behaviour")
 }
